@@ -322,14 +322,9 @@ int main(int argc, char* const* argv)
         if (header != "") script_lines[i++] = strdup(header.c_str());
         it = script->begin();
         while (script->GetOp(it, opcode, vchPushValue)) {
-            char* pbuf = buf;
-            pbuf += snprintf(pbuf, 1024, "#%04d ", i);
-            if (vchPushValue.size() > 0) {
-                snprintf(pbuf, 1024 + pbuf - buf, "%s", HexStr(std::vector<uint8_t>(vchPushValue.begin(), vchPushValue.end())).c_str());
-            } else {
-                snprintf(pbuf, 1024 + pbuf - buf, "%s", GetOpName(opcode).c_str());
-            }
-            script_lines[i++] = strdup(buf);
+            // pushes of up to 520 bytes are 1040 hex characters: do not squeeze the line into a fixed buffer
+            const std::string line = strprintf("#%04d %s", i, vchPushValue.size() > 0 ? HexStr(std::vector<uint8_t>(vchPushValue.begin(), vchPushValue.end())) : GetOpName(opcode));
+            script_lines[i++] = strdup(line.c_str());
         }
     }
 
